@@ -327,9 +327,10 @@ def run(tier, seed):
     # random longer patterns, keys derived from the pattern (instantiations and their mutations) + unrelated
     nrand = 3000 if tier == "quick" else 40000
     lines, keysets = [], []
-    for _ in range(nrand):
+    for it in range(nrand):
         L = rng.randint(4, 12)
-        p = bytes(rng.choice(ALPHA + b"xyz{}[]^\\)-") for _ in range(L))
+        # (letters that name regular-expression escapes - \\Q \\E \\d \\w \\b \\A \\z - matter once they follow a backslash)
+        p = bytes(rng.choice(ALPHA + b"xyz{}[]^\\)-" + (b"\\\\EQdwbAzsSpP" if it % 2 else b"")) for _ in range(L))
         ks = []
         for _ in range(6):
             k = instantiate(rng, p)
